@@ -1,0 +1,11 @@
+//go:build verif
+
+package otel
+
+import "go.opentelemetry.io/otel/metric"
+
+// SetMeterForVerif installs the meter that GetMeter() hands out (verification harnesses only:
+// a meter whose reader the harness owns, so that it can trigger a metrics collection).
+func SetMeterForVerif(meter metric.Meter) {
+	realMeter = meter
+}
